@@ -24,9 +24,160 @@ structure Defs where
   cuts : List (Nat × Int) := []
   bodies : List (Nat × (Nat × List Template)) := []
   hdls : List (Nat × List Effect) := []
+  mfns : List (Nat × List Int) := []          -- a b m r c
+  memoDefs : List (Nat × Template) := []
+  pks : List (Nat × Template) := []
 deriving Repr, Inhabited
 
 def emod (a m : Int) : Int := if m ≤ 0 then a else Int.emod a m
+
+/-! ### incremental-map operators as `map_with_old` closures (ids from `opBase`) -/
+
+open IncrVerif.MapOps in
+structure OpParams where
+  a : Int := 1
+  b : Int := 0
+  m : Int := 2
+  r : Int := 9
+  c : Int := 0
+deriving Inhabited
+
+def Defs.opParams (d : Defs) (m : Nat) : OpParams :=
+  match d.mfns.lookup m with
+  | some [a, b, mm, r, c] => { a := a, b := b, m := mm, r := r, c := c }
+  | _ => {}
+
+def opFmFn (p : OpParams) (k v : Int) : Option Int :=
+  if emod (k + v) p.m == p.r then none else some (emod (p.a * v + p.b * k) 7)
+def opG (p : OpParams) (k v : Int) : Int := p.a * v + p.b * k
+def opMergeFn (p : OpParams) (_k : Int) (e : IncrVerif.MapOps.MergeArg) : Option Int :=
+  match e with
+  | .left x => some x
+  | .right y => some (emod (2 * y) 7)
+  | .both x y => if emod (x + y) p.m == p.r then none else some (emod (x + y) 7)
+def opPartFn (p : OpParams) (k v : Int) : IncrVerif.MapOps.Either :=
+  if emod (k + v) p.m == p.r then .left v else .right (emod (v + 1) 7)
+
+inductive OpKind where
+  | fm | fold (rev upd : Bool) | merge | part
+deriving Inhabited
+
+def decodeOp (g : Nat) : OpKind × Nat :=
+  let k := g - opBase
+  let kind := k / 100000
+  let rest := k % 100000
+  if kind == 0 then (.fm, rest)
+  else if kind == 1 then (.fold (rest ≥ 20000) (rest % 20000 ≥ 10000), rest % 10000)
+  else if kind == 2 then (.merge, rest)
+  else (.part, rest)
+
+def asMap (v : Val) : List (Int × Int) := match v with | .map m => m | _ => []
+def optVal (o : Option Int) : Val := match o with | some i => .int i | none => .unit
+def optStr (o : Option Int) : String := match o with | some i => toString i | none => "()"
+
+def opUFold (p : OpParams) (upd : Bool) (rev : Bool) : IncrVerif.MapOps.UFold Int :=
+  if upd then
+    { add := fun acc k v => acc + opG p k v, remove := fun acc k v => acc - opG p k v,
+      update := fun acc k o n => acc - opG p k o + opG p k n, revertToInitWhenEmpty := rev }
+  else IncrVerif.MapOps.UFold.plain (fun acc k v => acc + opG p k v) (fun acc k v => acc - opG p k v) rev
+
+/-- (σ', new value, did_change) of an operator closure -/
+def opWithOld (d : Defs) (g : Nat) (σ : Val) (old : Option Val) (x : Val) : Val × Val × Bool :=
+  let (kind, m) := decodeOp g
+  let p := d.opParams m
+  match kind with
+  | .fm =>
+    let oldPair := match σ, old with
+      | .map oi, some (.map oo) => some (oi, oo)
+      | _, _ => none
+    let r := IncrVerif.MapOps.filterMapiStep (opFmFn p) oldPair (asMap x)
+    (x, .map r.1, r.2.1)
+  | .fold rev upd =>
+    let oldPair := match σ, old with
+      | .map oi, some (.int oo) => some (oi, oo)
+      | _, _ => none
+    let r := IncrVerif.MapOps.ufoldStep (opUFold p upd rev) p.c oldPair (asMap x)
+    (x, .int r.1, r.2.1)
+  | .merge =>
+    let (nl, nr) := match x with | .pair a b => (asMap a, asMap b) | _ => ([], [])
+    let oldT := match σ, old with
+      | .pair ol orr, some (.map oo) => some (asMap ol, asMap orr, oo)
+      | _, _ => none
+    let r := IncrVerif.MapOps.mergeStep (opMergeFn p) oldT nl nr
+    (x, .map r.1, r.2.1)
+  | .part =>
+    let oldPair := match σ, old with
+      | .map oi, some (.pair (.map l) (.map rr)) => some (oi, (l, rr))
+      | _, _ => none
+    let r := IncrVerif.MapOps.ufoldStep (IncrVerif.MapOps.partitionUFold (opPartFn p)) ([], []) oldPair (asMap x)
+    (x, .pair (.map r.1.1) (.map r.1.2), r.2.1)
+
+/-- the user-function calls of one operator step, as logged by the harness -/
+def opCalls (d : Defs) (g : Nat) (σ : Val) (old : Option Val) (x : Val) : List (String × List Val × String) :=
+  let (kind, m) := decodeOp g
+  let p := d.opParams m
+  let name (role : String) := s!"M{m}.{role}"
+  match kind with
+  | .fm =>
+    let oldPair := match σ, old with
+      | .map oi, some (.map oo) => some (oi, oo)
+      | _, _ => none
+    let r := IncrVerif.MapOps.filterMapiStep (opFmFn p) oldPair (asMap x)
+    r.2.2.map fun (_, k) =>
+      let v := ((IncrVerif.AMap.lookup (asMap x) k).getD 0)
+      (name "fn", [.int k, .int v], optStr (opFmFn p k v))
+  | .fold rev upd =>
+    let oldPair := match σ, old with
+      | .map oi, some (.int oo) => some (oi, oo)
+      | _, _ => none
+    let input := asMap x
+    let r := IncrVerif.MapOps.ufoldStep (opUFold p upd rev) p.c oldPair input
+    let oldIn := (oldPair.map (·.1)).getD []
+    let start : Int := match oldPair with | some (_, oo) => oo | none => p.c
+    let step (acc : Int × List (String × List Val × String)) (c : IncrVerif.MapOps.Call) :=
+      let (a, evs) := acc
+      let k := c.2
+      let nv := (IncrVerif.AMap.lookup input k).getD 0
+      let ov := (IncrVerif.AMap.lookup oldIn k).getD 0
+      match c.1 with
+      | .add => let a' := a + opG p k nv; (a', evs ++ [(name "add", [.int k, .int nv], toString a')])
+      | .remove => let a' := a - opG p k ov; (a', evs ++ [(name "remove", [.int k, .int ov], toString a')])
+      | .update =>
+        if upd then
+          let a' := a - opG p k ov + opG p k nv
+          (a', evs ++ [(name "update", [.int k, .int ov, .int nv], toString a')])
+        else
+          let a1 := a - opG p k ov
+          let a2 := a1 + opG p k nv
+          (a2, evs ++ [(name "remove", [.int k, .int ov], toString a1), (name "add", [.int k, .int nv], toString a2)])
+      | _ => (a, evs)
+    (r.2.2.foldl step (start, [])).2
+  | .merge =>
+    let (nl, nr) := match x with | .pair a b => (asMap a, asMap b) | _ => ([], [])
+    let oldT := match σ, old with
+      | .pair ol orr, some (.map oo) => some (asMap ol, asMap orr, oo)
+      | _, _ => none
+    let r := IncrVerif.MapOps.mergeStep (opMergeFn p) oldT nl nr
+    r.2.2.map fun (_, k) =>
+      let l := IncrVerif.AMap.lookup nl k
+      let rr := IncrVerif.AMap.lookup nr k
+      let e : IncrVerif.MapOps.MergeArg := match l, rr with
+        | some a, some b => .both a b
+        | some a, none => .left a
+        | none, some b => .right b
+        | none, none => .left 0
+      (name "merge", [.int k, optVal l, optVal rr], optStr (opMergeFn p k e))
+  | .part =>
+    let oldPair := match σ, old with
+      | .map oi, some (.pair (.map l) (.map rr)) => some (oi, (l, rr))
+      | _, _ => none
+    let input := asMap x
+    let r := IncrVerif.MapOps.ufoldStep (IncrVerif.MapOps.partitionUFold (opPartFn p)) ([], []) oldPair input
+    r.2.2.filterMap fun (role, k) =>
+      if role == .remove then none
+      else
+        let v := (IncrVerif.AMap.lookup input k).getD 0
+        some (name "fn", [.int k, .int v], match opPartFn p k v with | .left a => s!"L{a}" | .right b => s!"R{b}")
 
 def Defs.toEnv (d : Defs) : Env where
   fn := fun f args =>
@@ -35,6 +186,7 @@ def Defs.toEnv (d : Defs) : Env where
       | [a, b] => .pair a b
       | _ => .unit
     else if f == fnFirst then args.headD .unit
+    else if f == fnIdent then args.headD .unit
     else match d.fns.lookup f with
       | none => .int 0
       | some fd =>
@@ -55,7 +207,7 @@ def Defs.toEnv (d : Defs) : Env where
     | some "fst" => (match v with | .pair a _ => a | o => o)
     | some "snd" => (match v with | .pair _ b => b | o => o)
     | _ => v
-  withOld := fun g σ old x => match d.olds.lookup g with
+  withOld := fun g σ old x => if g ≥ opBase then opWithOld d g σ old x else match d.olds.lookup g with
     | some (.sum m) =>
       let new := Val.int (emod ((match old with | some o => o.toInt | none => 0) + x.toInt) m)
       (σ, new, old != some new)
@@ -71,6 +223,9 @@ def Defs.toEnv (d : Defs) : Env where
       alts[i]?.getD { instrs := [], ret := .outer 0 }
     | none => { instrs := [], ret := .outer 0 }
   handler := fun h _ => (d.hdls.lookup h).getD []
+  withOldCalls := fun g σ old x => if g ≥ opBase then opCalls d g σ old x else []
+  memo := fun m => (d.memoDefs.lookup m).getD { instrs := [], ret := .abs 0 }
+  perKey := fun f => (d.pks.lookup f).getD { instrs := [], ret := .loc 0 }
   expertFn := fun f deps slots =>
     -- f = 10*m + kind: kind 0 = sum of the dependencies' values, kind 1 = sum of what the callbacks stored
     let m : Int := f / 10
@@ -90,6 +245,7 @@ def parseOpnd (s : String) : Option Opnd :=
   if s.startsWith "%" then (.loc ·) <$> (s.drop 1).toString.toNat?
   else if s.startsWith "n" then (.outer ·) <$> (s.drop 1).toString.toNat?
   else if s.startsWith "#" then (.abs ·) <$> (s.drop 1).toString.toNat?
+  else if s.startsWith "@s" then (.slot ·) <$> (s.drop 2).toString.toNat?
   else none
 
 /-- values: integers, `()`, `(a,b)` of integers, `{k:v,…}` -/
@@ -125,6 +281,18 @@ def parseInstr (toks : List String) : Option Instr :=
   | ["zip", a, b] => do pure (.zip (← parseOpnd a) (← parseOpnd b))
   | ["dependon", a, b] => do pure (.dependOn (← parseOpnd a) (← parseOpnd b))
   | "cutoff" :: n :: c => do pure (.cutoff (← parseOpnd n) (← parseCutoff c))
+  | ["pub", sl, o] => do pure (.publish (← parseIdx "s" sl) (← parseOpnd o))
+  | ["scopedvar", x] => (.scopedVar ·) <$> parseVal x
+  | ["memocall", m, k] => do pure (.memoCall (← parseIdx "m" m) (← parseInt? k))
+  | ["mapop", "fm", _, m, x] => do pure (.mapOp (.fm (← parseIdx "M" m) (← parseOpnd x)))
+  | ["mapop", "fold", _, m, rev, upd, x] => do
+    pure (.mapOp (.fold (← parseIdx "M" m) (rev == "1") (upd == "1") (← parseOpnd x)))
+  | ["mapop", "merge", _, m, x, y] => do pure (.mapOp (.merge (← parseIdx "M" m) (← parseOpnd x) (← parseOpnd y)))
+  | ["mapop", "part", m, x] => do pure (.mapOp (.part (← parseIdx "M" m) (← parseOpnd x)))
+  | ["perkey", _, cut, fam, x] => do
+    let c : Option CutoffK := match cut with
+      | "never" => some .never | "always" => some .always | "eq" => some .eq | _ => none
+    pure (.perKey c (← parseIdx "P" fam) (← parseOpnd x))
   | ["expert", "sumdeps", m] => do pure (.expert ((← m.toNat?) * 10))
   | ["expert", "cbsum", m] => do pure (.expert ((← m.toNat?) * 10 + 1))
   | _ => none
@@ -184,6 +352,7 @@ inductive Action where
   | addDep (e child : Opnd) (cb : Bool)
   | arm (k : Nat)
   | dropAll
+  | dropHandle (n : Opnd)
   | expectPanic (classes : List String)
   | setMaxHeight (n : Nat)
   | stabilise
@@ -218,6 +387,7 @@ def parseAction (toks : List String) : Option Action :=
   | ["adddep", e, c, cb] => do pure (.addDep (← parseOpnd e) (← parseOpnd c) (cb == "cb"))
   | ["arm", k] => (.arm ·) <$> k.toNat?
   | ["dropall"] => some .dropAll
+  | ["drophandle", n] => (.dropHandle ·) <$> parseOpnd n
   | "expectpanic" :: cls => some (.expectPanic cls)
   | ["setmaxheight", k] => (.setMaxHeight ·) <$> k.toNat?
   | ["stabilise"] => some .stabilise
@@ -274,6 +444,18 @@ def parseLine (h : History) (line : String) : History :=
       | some b, some k, some alts =>
         { h with defs := { h.defs with bodies := (b, (k, alts)) :: h.defs.bodies } }
       | _, _, _ => bad
+    | ["mfn", m, a, b, mm, r, c] =>
+      match parseIdx "M" m, [a, b, mm, r, c].mapM parseInt? with
+      | some m, some ps => { h with defs := { h.defs with mfns := (m, ps) :: h.defs.mfns } }
+      | _, _ => bad
+    | "memo" :: m :: rest =>
+      match parseIdx "m" m, parseAlt (joinWith " " rest) with
+      | some m, some t => { h with defs := { h.defs with memoDefs := (m, t) :: h.defs.memoDefs } }
+      | _, _ => bad
+    | "pk" :: pk :: rest =>
+      match parseIdx "P" pk, parseAlt (joinWith " " rest) with
+      | some pk, some t => { h with defs := { h.defs with pks := (pk, t) :: h.defs.pks } }
+      | _, _ => bad
     | "hdl" :: hid :: rest =>
       match parseIdx "h" hid, parseEffects (joinWith " " rest) with
       | some hid, some effs => { h with defs := { h.defs with hdls := (hid, effs) :: h.defs.hdls } }
